@@ -16,6 +16,7 @@ fn base(name: &'static str, alphabet: Vec<Act>, props: &[&'static str]) -> SrvCf
         name,
         alphabet,
         cap_values: 8,
+        cap_mutable: None,
         cap_hashes: 4,
         cap_peers: 4,
         veto_ip: None,
@@ -80,6 +81,8 @@ pub fn cfgs_c03() -> Vec<SrvCfg> {
     a.push(Act::PutImm { src: 0, v: 2, tok: Tok::Empty });
     a.push(Act::PutImm { src: 0, v: 6, tok: Tok::Fresh });
     a.push(Act::PutImm { src: 2, v: 7, tok: Tok::Fresh });
+    a.push(Act::PutImm { src: 0, v: 8, tok: Tok::Fresh });
+    a.push(Act::PutImm { src: 0, v: 9, tok: Tok::Fresh });
     for d in TICKS {
         a.push(Act::Tick(d));
     }
@@ -98,6 +101,13 @@ pub fn cfgs_c03() -> Vec<SrvCfg> {
     a.push(pm(3, 0, Sig::Valid, Tok::Fresh));
     a.push(pm(0, 2, Sig::Valid, Tok::Fresh));
     a.push(pm(0, 3, Sig::Valid, Tok::Fresh));
+    // sizes that look small in a narrower integer, and a present-but-empty salt
+    a.push(pm(5, 0, Sig::Valid, Tok::Fresh));
+    a.push(pm(6, 0, Sig::Valid, Tok::Fresh));
+    a.push(pm(7, 0, Sig::Valid, Tok::Fresh));
+    a.push(pm(0, 4, Sig::Valid, Tok::Fresh));
+    a.push(pm(0, 5, Sig::Valid, Tok::Fresh));
+    a.push(pm(4, 1, Sig::Valid, Tok::Fresh));
     a.push(pm(0, 0, Sig::Invalid, Tok::Fresh));
     a.push(pm(0, 0, Sig::WrongTarget, Tok::Fresh));
     a.push(pm(3, 3, Sig::Invalid, Tok::Fresh));
@@ -204,6 +214,10 @@ pub fn cfgs_c04() -> Vec<SrvCfg> {
         a.push(Act::PutMut { src: 0, key: 0, salt: 1, seq: 1, val: 0, cas: Cas::Fixed(3), sig: Sig::Valid, tok: Tok::Fresh });
         a.push(Act::PutMut { src: 0, key: 0, salt: 1, seq: 2, val: 1, cas: Cas::None, sig: Sig::Valid, tok: Tok::Fresh });
         a.push(Act::PutMut { src: 0, key: 0, salt: 1, seq: 1, val: 1, cas: Cas::Mismatch, sig: Sig::Valid, tok: Tok::Fresh });
+        // a present-but-empty salt: the same target as the unsalted slot, so seq and cas apply across the two
+        a.push(Act::PutMut { src: 0, key: 0, salt: 4, seq: 1, val: 1, cas: Cas::None, sig: Sig::Valid, tok: Tok::Fresh });
+        a.push(Act::PutMut { src: 0, key: 0, salt: 4, seq: 3, val: 0, cas: Cas::Mismatch, sig: Sig::Valid, tok: Tok::Fresh });
+        a.push(Act::PutMut { src: 0, key: 0, salt: 4, seq: 3, val: 0, cas: Cas::None, sig: Sig::Valid, tok: Tok::Fresh });
         a.push(Act::Get { src: 0, target: 1, seq: None });
         a.push(Act::Get { src: 0, target: 1, seq: Some(1) });
         let mut c = base(
@@ -284,7 +298,8 @@ pub fn cfgs_c20() -> Vec<SrvCfg> {
     let p = &["C20"];
     let mut v = vec![];
     // (values, info-hashes, peers per hash): symmetric 1..3 and two asymmetric shapes
-    for (cap, cap_h, cap_p) in [(1usize, 1usize, 1usize), (2, 2, 2), (3, 3, 3), (2, 1, 3), (2, 3, 1)] {
+    // (immutable values, info-hashes, peers per hash, mutable values if different)
+    for (cap, cap_h, cap_p, cap_m) in [(1usize, 1usize, 1usize, None), (2, 2, 2, None), (3, 3, 3, None), (2, 1, 3, None), (2, 3, 1, None), (1, 2, 2, Some(2usize)), (2, 2, 2, Some(1))] {
         let mut a = vec![];
         for t in [3u8, 4, 0, 2] {
             a.push(Act::Get { src: 0, target: t, seq: None });
@@ -312,17 +327,20 @@ pub fn cfgs_c20() -> Vec<SrvCfg> {
             a.push(Act::AnnounceSigned { src: 0, ih, key, dt: 0, sig_ok: true, tok: Tok::Fresh });
         }
         let mut c = base(
-            match (cap, cap_h, cap_p) {
-                (1, _, _) => "c20-cap1",
-                (2, 2, 2) => "c20-cap2",
-                (3, _, _) => "c20-cap3",
-                (2, 1, 3) => "c20-hashes1-peers3",
+            match (cap, cap_h, cap_p, cap_m) {
+                (1, _, _, Some(_)) => "c20-immutable1-mutable2",
+                (_, _, _, Some(_)) => "c20-immutable2-mutable1",
+                (1, _, _, _) => "c20-cap1",
+                (2, 2, 2, _) => "c20-cap2",
+                (3, _, _, _) => "c20-cap3",
+                (2, 1, 3, _) => "c20-hashes1-peers3",
                 _ => "c20-hashes3-peers1",
             },
             a,
             p,
         );
         c.cap_values = cap;
+        c.cap_mutable = cap_m;
         c.cap_hashes = cap_h;
         c.cap_peers = cap_p;
         v.push(c);
@@ -389,7 +407,7 @@ pub fn e1_replay(cfg: &SrvCfg, path: &[u16]) -> Partial {
         max_info_hashes: cfg.cap_hashes,
         max_peers_per_info_hash: cfg.cap_peers,
         max_immutable_values: cfg.cap_values,
-        max_mutable_values: cfg.cap_values,
+        max_mutable_values: cfg.cap_mutable.unwrap_or(cfg.cap_values),
         ..Default::default()
     };
     if let Some(ip) = cfg.veto_ip {
